@@ -149,6 +149,8 @@ func (w *World) remapOnce(kind string) string {
 	case "createProject", "updClassAdmin", "updClassIssuers", "updClassMeta", "bridgeReceive":
 		if len(s.Classes) == 0 {
 			need = "createClass"
+		} else if kind == "bridgeReceive" && len(s.BridgeChains) == 0 {
+			need = "addBridgeChain"
 		}
 	case "createBatch", "updProjectAdmin", "updProjectMeta":
 		if len(s.Projects) == 0 {
@@ -163,6 +165,10 @@ func (w *World) remapOnce(kind string) string {
 			need = "createBatch"
 		} else if kind == "sell" && len(s.AllowedDenoms) == 0 {
 			need = "addDenom"
+		} else if kind == "bridge" && len(s.BridgeChains) == 0 {
+			need = "addBridgeChain"
+		} else if kind == "bridge" && len(s.Contracts) == 0 {
+			need = "bridgeReceive"
 		}
 	case "put":
 		if len(s.Baskets) == 0 {
